@@ -22,6 +22,10 @@ pub enum Scenario {
     SniSelect,
     /// endpoint start-up with configured passwords
     Startup,
+    /// a tunnel request forwarded through a SOCKS5 upstream (real forwarder, mock server on
+    /// loopback) that refuses the method, rejects the credentials, fails the request or talks
+    /// nonsense: the credentials the forwarder derives from the client's are in play
+    SocksUpstream,
     /// a request head the HTTP/1.1 parser refuses (or never completes), carrying the secrets, with
     /// CRLF, bare LF or mixed line ends, on one of the HTTP/1.1 channels (all chosen from `nonce`)
     RawHead,
@@ -331,6 +335,56 @@ fn run_scenario(c: &Case) -> Vec<String> {
                 }
             }
         }
+        Scenario::SocksUpstream => aio::block_on_real(async {
+            let Ok(listener) = tokio::net::TcpListener::bind("127.0.0.1:0").await else { return };
+            let proxy_addr = listener.local_addr().unwrap();
+            let behaviour = c.nonce % 6;
+            let reply_code = 1 + ((c.nonce >> 8) % 8) as u8;
+            let server = tokio::spawn(async move {
+                let Ok((mut s, _)) = listener.accept().await else { return };
+                let mut buf = vec![0u8; 600];
+                // greeting
+                let _ = tokio::time::timeout(Duration::from_secs(2), s.read(&mut buf)).await;
+                match behaviour {
+                    0 => {
+                        let _ = s.write_all(&[5, 0xff]).await;
+                    }
+                    1 | 2 | 3 => {
+                        let _ = s.write_all(&[5, if behaviour == 3 { 0x80 } else { 2 }]).await;
+                        let _ = tokio::time::timeout(Duration::from_secs(2), s.read(&mut buf)).await;
+                        if behaviour == 1 {
+                            let _ = s.write_all(&[1, 1]).await;
+                        } else {
+                            let _ = s.write_all(&[1, 0]).await;
+                            let _ = tokio::time::timeout(Duration::from_secs(2), s.read(&mut buf)).await;
+                            let _ = s.write_all(&[5, reply_code, 0, 1, 0, 0, 0, 0, 0, 0]).await;
+                        }
+                    }
+                    4 => {
+                        let _ = s.write_all(b"HTTP/1.1 400 Bad Request\r\n\r\n").await;
+                    }
+                    _ => {}
+                }
+                tokio::time::sleep(Duration::from_millis(50)).await;
+            });
+            let spec = CoreSpec { socks5: Some((proxy_addr, (c.nonce >> 4) % 2 == 1)), ..spec.clone() };
+            let Ok(world) = spec.build() else { return };
+            let mut req = build_request(&c, &k);
+            req.method = "CONNECT".into();
+            req.target = "dest.test:443".into();
+            // either the SNI label or the configured pair is what the forwarder turns into SOCKS credentials
+            let (sni, creds) = if c.sni_creds.is_some() { (format!("{}.main.x", k.sni_label), Some(k.sni_label.clone())) } else { ("main.x".to_string(), None) };
+            if creds.is_none() {
+                req.auth = vec![AuthHeader::Raw(format!("Basic {}", b64(&format!("user:{}", k.configured_pass))).into_bytes())];
+            }
+            let wait = Duration::from_secs(3);
+            if c.h2 {
+                let _ = run_h2(&world, &sni, creds, &[req], wait).await;
+            } else {
+                let _ = run_h1(&world, &sni, creds, &req, wait).await;
+            }
+            let _ = tokio::time::timeout(Duration::from_secs(1), server).await;
+        }),
         _ => aio::block_on_real(async {
             let world = spec.build().expect("core");
             let outcome = c.outcome.clone();
@@ -382,7 +436,7 @@ impl Suite for LeakSuite {
         "log-canaries"
     }
     fn rule(&self) -> String {
-        "scenarios of the other properties re-run under a capturing log::Log at Trace with a unique canary in every secret-bearing field: request heads the HTTP/1.1 parser refuses or never completes (invalid header name before / after / between the secrets, control byte, unsupported version, 40+ fields, 1.5 KB field, client stops mid-head) with CRLF, bare LF or mixed line ends on the tunnel, ping, speedtest and reverse-proxy channels; tunnel requests over HTTP/1.1 and HTTP/2 (CONNECT to hosts / literals / reserved names / look-alikes / without port, absolute-URI GET and POST) with Proxy-Authorization written as valid, wrong, Bearer, lower-case scheme, bare token, malformed, duplicate or absent, optional Authorization and Cookie headers, every scripted connect outcome, connections with accepted / rejected SNI credentials; ping, speedtest and reverse-proxy requests carrying the same headers; the TLS demultiplexer's connection meta for <credentials>.<host> SNIs; start-up with configured passwords; oracle: no captured record contains a canary verbatim, base64-encoded or (for Proxy-Authorization) base64-decoded; non-trivial = scenario that took an error path or a non-tunnel channel".into()
+        "scenarios of the other properties re-run under a capturing log::Log at Trace with a unique canary in every secret-bearing field: tunnel requests forwarded through the real SOCKS5 forwarder to a mock upstream that refuses the method, rejects the credentials (which the forwarder derives from the SNI label or the Basic pair), fails the request with reply codes 1-8 or answers nonsense; request heads the HTTP/1.1 parser refuses or never completes (invalid header name before / after / between the secrets, control byte, unsupported version, 40+ fields, 1.5 KB field, client stops mid-head) with CRLF, bare LF or mixed line ends on the tunnel, ping, speedtest and reverse-proxy channels; tunnel requests over HTTP/1.1 and HTTP/2 (CONNECT to hosts / literals / reserved names / look-alikes / without port, absolute-URI GET and POST) with Proxy-Authorization written as valid, wrong, Bearer, lower-case scheme, bare token, malformed, duplicate or absent, optional Authorization and Cookie headers, every scripted connect outcome, connections with accepted / rejected SNI credentials; ping, speedtest and reverse-proxy requests carrying the same headers; the TLS demultiplexer's connection meta for <credentials>.<host> SNIs; start-up with configured passwords; oracle: no captured record contains a canary verbatim, base64-encoded or (for Proxy-Authorization) base64-decoded; non-trivial = scenario that took an error path or a non-tunnel channel".into()
     }
     fn strategy(&self, _: Tier) -> BoxedStrategy<Case> {
         let target = prop_oneof![
@@ -408,6 +462,7 @@ impl Suite for LeakSuite {
                 1 => Just(Scenario::SniSelect),
                 1 => Just(Scenario::Startup),
                 3 => Just(Scenario::RawHead),
+                3 => Just(Scenario::SocksUpstream),
             ],
             any::<bool>(),
             target,
@@ -455,6 +510,7 @@ impl Suite for LeakSuite {
             Scenario::SniSelect => v.push("sni-select"),
             Scenario::Startup => v.push("startup"),
             Scenario::RawHead => v.push("refused-head"),
+            Scenario::SocksUpstream => v.push("socks5-upstream"),
         }
         if c.sni_creds.is_some() && c.scenario == Scenario::Tunnel {
             v.push("sni-credentials");
@@ -465,7 +521,7 @@ impl Suite for LeakSuite {
         v
     }
     fn required_classes(&self) -> Vec<&'static str> {
-        vec!["nontrivial", "tunnel", "ping", "speedtest", "reverse-proxy", "sni-select", "startup", "sni-credentials", "refused-head"]
+        vec!["nontrivial", "tunnel", "ping", "speedtest", "reverse-proxy", "sni-select", "startup", "sni-credentials", "refused-head", "socks5-upstream"]
     }
     fn check(&self, c: &Case) -> Verdict {
         let logs = run_scenario(c);
